@@ -609,7 +609,9 @@ impl<K, V, S> Inner<K, V, S> {
 
     #[inline]
     fn set_valid_after(&self, timestamp: Instant) {
-        self.valid_after.set_instant(timestamp);
+        // Never move valid_after backwards. A concurrent invalidate_all that read
+        // the clock earlier may store its timestamp later.
+        self.valid_after.set_instant_if_later(timestamp);
     }
 
     #[inline]
